@@ -212,7 +212,7 @@ def h2_h3_semaphore(ctx, CG):
         SIG = boolform.A('(& %s %s)' % tuple(sorted([S, '(~ %s)' % Mk])))
         OLD = boolform.A(MS)
         wants = [SIG, boolform.disj(OLD, SIG)]
-        if f['id'].endswith('Impl::Reset()'):
+        if f['name'] == 'Reset':
             wants = [boolform.F_]
         assigned = [(boolform.path_condition(f['body'], n, FM), FM.form(n.get('rhs')), n) for i_, n in flag]
         rest = boolform.T
@@ -235,7 +235,7 @@ def h2_h3_semaphore(ctx, CG):
             if nm == 'MaskSemaphore' and not (p[1] == 'semaphore_mask' and how == '=' and rr == '$0'):
                 ctx.report(R2, f, n, name + ' op', 'mask write must store the mask')
             locks = [l[0] for l in CG.locks_held_at(f, n)]
-            if f['cls'] == 'Teakra::Apbp' and (IMPL, 'semaphore_mutex') not in locks:
+            if f['cls'] == 'Teakra::Apbp' and f['name'] != 'Reset' and (IMPL, 'semaphore_mutex') not in locks:
                 ctx.report(R2, f, n, name + ' lock', 'semaphore state written outside semaphore_mutex')
     # handler invocations
     for fid, f in F.items():
